@@ -67,6 +67,7 @@ re_search = z3.Function("re_search", S, S, B)     # re.search(p, s) is not None
 setord = z3.Function("setord", I, Obj, I, Obj)    # hashseed, set, position -> element  (C17)
 list_of_seq = z3.Function("list_of_seq", SeqObj, Obj)   # the list holding exactly the items of a sequence
 seq_of_list = z3.Function("seq_of_list", Obj, SeqObj)
+nonell_count = z3.Function("nonell_count", Obj, I)   # number of non-Ellipsis items of a list
 conforms = z3.Function("conforms", Obj, Obj, B)     # C02: value conforms to schema (spec relation)
 winok = z3.Function("winok", Obj, I, I, Obj, I, B)  # forall j<k. conforms(E[eoff+j], v[voff+j])
 winwit = z3.Function("winwit", Obj, I, I, Obj, I, I)
@@ -351,6 +352,18 @@ def base_axioms() -> List[z3.BoolRef]:
                                    z3.And(eo <= ww, ww < eo + kk,
                                           z3.Not(conforms(lat(E_, ww), lat(v_, vo + (ww - eo)))))),
                         patterns=[winok(E_, eo, kk, v_, vo)]))
+    # nonell_count: bounds, `all kept` characterisation, and its value when `...` occurs only at the
+    # ends (the only placement the DSL admits) -- spec-level lemma, trusted (DESIGN section 6)
+    nE = z3.Const("nE", Obj)
+    nj = z3.Int("nj")
+    mid_free = z3.ForAll([nj], z3.Implies(z3.And(0 < nj, nj < llen(nE) - 1), lat(nE, nj) != EllV), patterns=[lat(nE, nj)])
+    all_kept = z3.ForAll([nj], z3.Implies(z3.And(0 <= nj, nj < llen(nE)), lat(nE, nj) != EllV), patterns=[lat(nE, nj)])
+    ends = z3.If(z3.And(llen(nE) > 0, lat(nE, 0) == EllV), 1, 0) + \
+        z3.If(z3.And(llen(nE) > 1, lat(nE, llen(nE) - 1) == EllV), 1, 0)
+    ax.append(z3.ForAll([nE], z3.And(0 <= nonell_count(nE), nonell_count(nE) <= llen(nE),
+                                     (nonell_count(nE) == llen(nE)) == all_kept,
+                                     z3.Implies(mid_free, nonell_count(nE) == llen(nE) - ends)),
+                        patterns=[nonell_count(nE)]))
     # satisfiable(S) := exists w. conforms(S, w)     (introduction direction)
     satisfiable_ = z3.Function("satisfiable", Obj, B)
     ax.append(z3.ForAll([o, o2_ := z3.Const("sw", Obj)], z3.Implies(conforms(o, o2_), satisfiable_(o)),
